@@ -36,3 +36,5 @@ import RenetVerif.Props.SrcTieNcServerSend
 import RenetVerif.Props.SrcTieNcServerRecv
 import RenetVerif.Props.SrcTieNcTokenGen
 import RenetVerif.Props.SrcTieNcClient
+import RenetVerif.Props.SrcTieTrServer
+import RenetVerif.Props.SrcTieTrClient
